@@ -146,7 +146,11 @@ def gen_case(rng, gate):
             turns.append(dict(copy.deepcopy(turns[-1]), turn=len(turns) + 1))
         base["t1"]["cache"] = {"enabled": True}
         base["t2"]["cache"] = {"enabled": True}
-    return {"gate": gate, "world": world, "base": base, "turns": turns, "seed": rng.randint(0, 10 ** 9)}
+    return {"gate": gate, "world": world, "base": base, "turns": turns, "seed": rng.randint(0, 10 ** 9),
+            # turns handed to the agent batch driver (batches of one) instead of run_turn: the driver has its own gate predicate
+            "via_driver": gate == "parallel" and rng.random() < 0.5,
+            # the plan's request for reflection arrives through the flag the LLM planner path stashes on the state
+            "stash_reflection_flag": gate == "reflection" and rng.random() < 0.4}
 
 
 def run_cfg(cfg, case, trace_dir, sess):
@@ -167,8 +171,10 @@ def run_cfg(cfg, case, trace_dir, sess):
         os.chdir(env.base)  # relative artefact paths (./logs, ./.data) land inside the private directory
         try:
             fps = []
+            if case.get("stash_reflection_flag"):
+                env.state["_planner_reflection_flag"] = True
             for t in case["turns"]:
-                env.run(t["agent"], t["text"], t["turn"], now_ms=t["now_ms"], plan=t.get("plan"))
+                env.run(t["agent"], t["text"], t["turn"], now_ms=t["now_ms"], plan=t.get("plan"), via_driver=bool(case.get("via_driver")))
                 fp = state_fingerprint(env.state)
                 fp.pop("keys", None)
                 fps.append(fp)
